@@ -161,6 +161,25 @@ mod verif_kani {
         }
     }
 
+    // the reported size of a string counts BYTES: one arbitrary char of each multi-byte length class
+    // (encoding side only - no decoder, so no UTF-8 validation in the way)
+    fn one_char_size(len: usize) {
+        let c: char = kani::any();
+        kani::assume(c.len_utf8() == len);
+        let s = String::from(c);
+        assert!(s.len() == len);
+        assert!(s.serialized_size() == 8 + len as u64);
+        assert!(s.serialize().len() as u64 == s.serialized_size());
+    }
+
+    #[kani::proof]
+    #[kani::unwind(20)]
+    fn c20_string_size_counts_bytes() {
+        one_char_size(2);
+        one_char_size(3);
+        one_char_size(4);
+    }
+
     #[kani::proof]
     #[kani::unwind(20)]
     #[kani::stub(core::panic::Location::caller, stub_caller)]
